@@ -352,7 +352,7 @@ func suiteCrash(seed uint64, n int, work string, power bool, sparse bool) {
 						}
 						for t := 0; t < ncont && ok2; t++ {
 							rec.run("begin w ?")
-							rec.run(fmt.Sprintf("put %s %s %s 0 1700000000", hx([]byte("zz")), hx([]byte(fmt.Sprintf("c%d", t))), hx([]byte(strings.Repeat("y", 40+t)))))
+							rec.run(fmt.Sprintf("put %s %s %s 0 1700000000", hx([]byte("zz")), hx([]byte(fmt.Sprintf("c%d", t))), hx([]byte(strings.Repeat("\x02", 40+t)))))
 							if rec.run("commit") != "ok" {
 								ok2 = false
 								specOrKnown("commit failed after crash recovery (event %d torn %d)", e, torn)
